@@ -391,8 +391,17 @@ pub fn binary_cell(spec: &Value) -> Value {
     if refusal == Some("readonly") {
         extra.push("-r");
     }
+    // relative directories: tftpd is started in the parent of its directories with `-d srv` (and `-rd up`)
+    let relparent = spec["relparent"].as_bool().unwrap_or(false);
+    if relparent {
+        extra.push("@relparent");
+        if spec["rd_first"].as_bool().unwrap_or(false) {
+            extra.push("-rd");
+            extra.push("up");
+        }
+    }
     let rd_first = spec["rd_first"].as_bool().unwrap_or(false);
-    if rd_first {
+    if rd_first && !relparent {
         // distinct receive directory, written BEFORE -d on the command line
         extra.push("@first:-rd");
         extra.push("@first:{dir}/up");
@@ -430,7 +439,7 @@ pub fn binary_cell(spec: &Value) -> Value {
         let upload = case["upload"].as_bool().unwrap_or(false);
         let style = case["path"].as_str().unwrap_or("plain");
         let data = body(len);
-        let desc = format!("tftpc {} len={len} blk={blk} ws={ws} path={style} {}{}", if upload { "upload" } else { "download" }, if ipv6 { "ipv6" } else { "ipv4" }, if dupn > 0 { format!(" dup={dupn}") } else { String::new() });
+        let desc = format!("tftpc {} len={len} blk={blk} ws={ws} path={style} {}{}{}{}", if upload { "upload" } else { "download" }, if ipv6 { "ipv6" } else { "ipv4" }, if dupn > 0 { format!(" dup={dupn}") } else { String::new() }, if case["no_rd"].as_bool().unwrap_or(false) { " (no -rd: into the working directory)" } else { "" }, if relparent { " (tftpd started with relative directories)" } else { "" });
         c.executions += 1;
         c.states += 1;
         c.transitions += (len as u64 / blk.max(1)) + 2;
@@ -456,9 +465,15 @@ pub fn binary_cell(spec: &Value) -> Value {
             };
             let real_rel = rel.replace('\\', "/");
             std::fs::write(format!("{sdir}/{real_rel}"), &data).unwrap();
-            args = vec![rel.to_string(), "-d".into(), "-rd".into(), format!("{cdir}/rd")];
+            if case["no_rd"].as_bool().unwrap_or(false) {
+                // no -rd: the receive directory is the client's working directory
+                args = vec![rel.to_string(), "-d".into()];
+                dst = format!("{cdir}/dl.bin");
+            } else {
+                args = vec![rel.to_string(), "-d".into(), "-rd".into(), format!("{cdir}/rd")];
+                dst = format!("{cdir}/rd/dl.bin"); // <receive-directory>/<basename of the requested path>
+            }
             src = format!("{sdir}/{real_rel}");
-            dst = format!("{cdir}/rd/dl.bin"); // <receive-directory>/<basename of the requested path>
         }
         args.extend(["-i".into(), ip.into(), "-p".into(), port.clone(), "-b".into(), blk.to_string(), "-w".into(), ws.to_string()]);
         match run_tftpc(&cdir, &args) {
@@ -675,7 +690,7 @@ pub fn run_pair(pc: &PairCfg, prefix: &[u16]) -> PairResult {
     let evs_r = rd.take_events();
     let stored = std::fs::read(&dst).ok();
     // judge each worker's own trace with the Mode A monitors, then the composition
-    let xs = XCfg { role: Role::Sender, blk: pc.blk, ws: pc.ws, len: pc.len, handshake: false, timeout_s: 5, repeat: 1, clean: true, alpha: 3, silence_after: None, error_at: None, ack_every_copy: false, snapshot_tail: false, noise: None, noise_resume: false, send_fail_at: None, error_latin1: false };
+    let xs = XCfg { role: Role::Sender, blk: pc.blk, ws: pc.ws, len: pc.len, handshake: false, timeout_s: 5, repeat: 1, clean: true, alpha: 3, silence_after: None, error_at: None, ack_every_copy: false, snapshot_tail: false, noise: None, noise_resume: false, send_fail_at: None, error_latin1: false, error_code: 0 };
     let mut xr = xs.clone();
     xr.role = Role::Receiver;
     let ts = Trace { cfg: xs, events: evs_s, log: vec![], panicked: ps, stuck: false, horizon_hit: false, replay_error: None, now_calls: 1, final_file: None, content: std::sync::Arc::new(data.clone()) };
@@ -816,6 +831,12 @@ pub fn check(tier: Tier) -> Outcome {
                 cells.push(json!({"ipv6": ipv6, "single": single, "cases": [], "refusal": kind}));
             }
             if !ipv6 {
+                // downloads without -rd (nested and Windows-style paths land in the working directory under their basename)
+                cells.push(json!({"ipv6": false, "single": single, "cases": [{"len": 1500, "blk": 512, "ws": 1, "upload": false, "path": "nested", "no_rd": true}, {"len": 1500, "blk": 512, "ws": 1, "upload": false, "path": "windows", "no_rd": true}, {"len": 1500, "blk": 512, "ws": 1, "upload": false, "path": "plain", "no_rd": true}]}));
+                // tftpd started with RELATIVE directory names (with and without a separate receive directory)
+                for rd in [false, true] {
+                    cells.push(json!({"ipv6": false, "single": single, "relparent": true, "rd_first": rd, "cases": [{"len": 1500, "blk": 512, "ws": 1, "upload": false, "path": "plain"}, {"len": 1500, "blk": 512, "ws": 1, "upload": true, "path": "plain"}, {"len": 1500, "blk": 512, "ws": 1, "upload": false, "path": "nested"}]}));
+                }
                 // distinct directories: the name exists in the RECEIVE directory only (no --overwrite): refused
                 cells.push(json!({"ipv6": false, "single": single, "rd_first": true, "cases": [], "refusal": "exists"}));
             }
